@@ -204,6 +204,11 @@ def ls5(F, R):
       doc="file_is_open answers true under exactly the three identity comparisons (volume handle, entry block, entry offset) and nothing else: an open file stays recognised while its cached entry (size, first cluster, times) differs from the directory")
 def md9x(F, R):
     fn = F.fn(VMD + "::file_is_open")
+    from .rules_guard import file_is_open_any_form
+    af = file_is_open_any_form(F, fn)
+    if af is not None:
+        R.require(af[0] and af[2] == {"raw_volume", "entry_block", "entry_offset"}, fn, "no-extra-conjunct", "file_is_open must answer true under exactly the three identity comparisons: %s" % af[1], fn.loc(0))
+        return
     trues = [(b, i) for b, i, s in fn.stmts() if s["k"] == "Assign" and s["p"]["l"] == 0 and not s["p"]["proj"] and fn.term_of_rvalue(s["rv"], b) == ("c", 1, None)]
     for b, i in trues:
         extra = []
